@@ -40,6 +40,8 @@ def families(tier):
         {'name': 'A5b', 'params': {'modes': ['ok', 'raise_before'], 'mut_paths': ['in/x', 'o/d/g', 'o/z']}, 'weight': 2},
         {'name': 'A6', 'params': {'kinds': ['is_dir', 'list_dir'], 'mut_paths': ['in/x', 'o/z']}, 'weight': 3},
         {'name': 'B2', 'params': {'mut_paths': [], 'hist': 'BBB'}, 'weight': 3},
+        {'name': 'B9', 'params': {'mut_paths': [], 'hist': 'BB', 'universe': ['o', 'o/d'], 'kinds': ['is_dir', 'list_dir', 'exists']}, 'weight': 1},
+        {'name': 'B10', 'params': {'mut_paths': [], 'hist': 'BB', 'universe': ['o', 'o/d', 'o/d/z'], 'kinds': ['is_dir', 'list_dir', 'exists']}, 'weight': 1},
         # every query kind inside a failing (caught) build_file function, on its own fresh parent directory
         {'name': 'B2', 'params': {'mut_paths': [], 'hist': 'BB', 'inner_kinds': ['get_size', 'exists', 'read_m', 'walk_bu']}, 'weight': 2},
         {'name': 'B8', 'params': {'mut_paths': ['in/x', 'in/y', 'o/f']}, 'weight': 2},
